@@ -12,9 +12,10 @@ P == 112  Q == 81  FK == 65355  KK == 13183  R3 == 8546  TC == 453
 A == 97  B == 98  C == 99
 Letters == {P, Q, FK, KK, R3, TC, A, B, C}
 
+\* two rules map a key to itself (<<A, B>> and <<Q>>): such a rule changes nothing but still takes part in longest-match and shields its span
 AllKeys == { <<A>>, <<A, B>>, <<A, B, C>>, <<B>>, <<B, C>>, <<C, A>>, <<Q>>, <<KK, A>>, <<P, KK>> }
-MValueOf(k) == CASE k = <<A>> -> <<49>> [] k = <<A, B>> -> <<50, 51>> [] k = <<A, B, C>> -> <<52>> [] k = <<B>> -> <<53>>
-                 [] k = <<B, C>> -> <<54, 55>> [] k = <<C, A>> -> <<56>> [] k = <<Q>> -> <<57>> [] k = <<P, KK>> -> <<FK>> [] OTHER -> <<48, Q>>
+MValueOf(k) == CASE k = <<A>> -> <<49>> [] k = <<A, B>> -> <<A, B>> [] k = <<A, B, C>> -> <<52>> [] k = <<B>> -> <<53>>
+                 [] k = <<B, C>> -> <<54, 55>> [] k = <<C, A>> -> <<56>> [] k = <<Q>> -> <<Q>> [] k = <<P, KK>> -> <<FK>> [] OTHER -> <<48, Q>>
 MExempt == {R3}
 MLowerOf(c) == CASE c = Q -> <<113>> [] c = R3 -> <<8562>> [] c = TC -> <<454>> [] OTHER -> <<c>>
 NfkcChar(c) == CASE c = FK -> <<107>> [] c = KK -> <<26666, 24335, 20250, 31038>> [] c = R3 -> <<73, 73, 73>>
